@@ -658,6 +658,9 @@ func (e *Engine) mapLen(s *State, mt *types.Map, m string) string {
 	h := e.heapGet(s, ml, "(Array Int Int)")
 	l := e.define(s, "mlen", "Int", app("ite", eq(m, "0"), "0", app("select", h, m)))
 	s.assume(app(">=", l, "0"))
+	// a map of length 0 has no keys (the length and the key set are separate heaps)
+	_, _, ks := e.mapNames(mt)
+	s.assume(implies(and(not(eq(m, "0")), eq(l, "0")), eq(e.mapDom(s, mt, m), "((as const (Array "+ks+" Bool)) false)")))
 	return l
 }
 
